@@ -45,6 +45,8 @@ type Knobs struct {
 	Persistent map[string]bool `json:"persistent,omitempty"`
 	StepCap    int             `json:"stepCap"`
 	RejectDev  bool            `json:"rejectDev,omitempty"` // devices refuse Sets containing DevRejectValue
+	// LateAck: "<prim>/<op>" prefixes of Atomix writes whose acknowledgement is scheduled separately from their effect
+	LateAck []string `json:"lateAck,omitempty"`
 }
 
 // Plan is a complete run description.
@@ -80,6 +82,26 @@ const DevRejectValue = "DEVNO"
 type Gen struct {
 	R    *rand.Rand
 	vseq int
+	// focus mode: a share of all drawn paths lies on one deep leaf path (its ancestors for deletes, the leaf and its
+	// siblings for updates), so that histories pile deletes, re-creations and tombstones onto one sub-tree
+	focus    Path
+	focusTyp string
+	focusPct int
+}
+
+// SetFocus switches focus mode on: pct percent of the drawn paths lie on one leaf path of depth >= 3.
+func (g *Gen) SetFocus(pct int) {
+	if g.focus != nil {
+		g.focusPct = pct
+		return
+	}
+	for {
+		p, typ := g.RandLeafPath(false)
+		if len(p) >= 3 {
+			g.focus, g.focusTyp, g.focusPct = p, typ, pct
+			return
+		}
+	}
 }
 
 // NewGen seeds a generator.
@@ -175,6 +197,20 @@ func (g *Gen) RandOps(max int, delPct int, poison bool) []MOp {
 	var ops []MOp
 	used := map[string]bool{}
 	for i := 0; i < n; i++ {
+		if g.focusPct > 0 && g.R.Intn(100) < g.focusPct {
+			// on the focus path: delete one of its ancestors (or the leaf), or write the leaf
+			if g.R.Intn(100) < delPct {
+				q := append(Path{}, g.focus[:1+g.pick(len(g.focus))]...)
+				if !used[q.K()] {
+					used[q.K()] = true
+					ops = append(ops, MOp{Del: true, P: q})
+				}
+			} else if !used[g.focus.K()] {
+				used[g.focus.K()] = true
+				ops = append(ops, MOp{P: append(Path{}, g.focus...), V: g.RandValue(g.focusTyp, g.focus)})
+			}
+			continue
+		}
 		if g.R.Intn(100) < delPct {
 			q := g.RandDeletePath()
 			if used[q.K()] {
